@@ -3,6 +3,7 @@ CONSTANTS
   Addr <- MCAddr
   SentBits = {0, 16, 24, 32}
   Scopes = {0, 8, 20, 24, 32}
+  Echoes = {0, 2, 4}
   FwdMax = 24
   Floor = 24
   Enabled = TRUE
@@ -11,5 +12,5 @@ INIT Init
 NEXT Next
 VIEW View
 INVARIANTS TypeOK EcsLeavesOnlyIfAllowed NeverTooSpecific
-PROPERTIES ScopedAudience
+PROPERTIES ScopedAudience DeclaredScopeAudience
 CHECK_DEADLOCK FALSE
